@@ -119,7 +119,8 @@ NumCall(nm, a, md) ==
            ELSE IF opt(2) /\ ~N(2) THEN LArgType(2)
            ELSE LET b == IF opt(2) THEN RoundHalfEven(a[2].n, a[2].d) ELSE 10
                     v == RoundHalfEven(a[1].n, a[1].d)
-                IN  IF b < 2 \/ b > 36 THEN LErr
+                \* "for 2 <= b <= 36 and an error otherwise": the base as given, not the base after rounding (1.5 and 36.25 are outside)
+                IN  IF b < 2 \/ b > 36 \/ (opt(2) /\ (a[2].n < 2 * a[2].d \/ a[2].n > 36 * a[2].d)) THEN LErr
                     ELSE LVal(Str((IF v < 0 THEN <<45>> ELSE <<>>) \o BaseDigits(AbsI(v), b)))
       [] OTHER -> LTop("unmodelled number function")
 
